@@ -8,7 +8,7 @@ THEOREMS = ['Pistache.EventLoop.Props.' + t for t in ('other_untouched', 'no_att
                                                       'writable_delivers', 'request_answered', 'old_drain_spins')]
 
 def gen(tier, rnd):
-    L = ['stall 2 4000000 600 3', 'stall 1 6000000 300 2 1', 'stall 3 3000000 400 1 1']
+    L = ['stall 2 4000000 600 3', 'stall 1 6000000 300 2 1', 'stall 3 3000000 400 1 1', 'stall 1 8000000 300 1 2', 'stall 2 5000000 400 2 2']
     combos = [(1, 6000000, 400, 2), (3, 3000000, 600, 4), (5, 2000000, 300, 1), (2, 5000000, 800, 6)]
     if tier == 'thorough':
         for _ in range(24): combos.append((rnd.randint(1, 6), rnd.choice([2000000, 3000000, 5000000, 8000000]), rnd.choice([200, 500, 1000, 1500]), rnd.randint(1, 8)))
@@ -30,6 +30,7 @@ def oracle(ln, out):
     total = nw * size * (2 if len(w) > 5 and w[5] == '1' else 1)
     if int(f['recv']) != total or f['match'] != '1': return ('lost', 'after the stalled peer resumed reading it received %s of %d bytes (match=%s)' % (f['recv'], total, f['match']))
     if len(w) > 5 and w[5] == '1': nw *= 2
+    if len(w) > 5 and w[5] == '2' and f.get('c') != '1': return ('stalled', 'the request of a third connection that arrived together with the writable edge of the stalled one was not answered')
     for i, p in enumerate(f['promises'].split(',')):
         if p != 'ok:%d' % size: return ('promise', 'write %d of %d bytes on the stalled connection: promise %s' % (i, size, p))
     return None
@@ -37,7 +38,7 @@ def oracle(ln, out):
 def classify(ln, out): return tuple(ln.split()[1:]) + (canon(out)[:40],)
 
 RULE = ('a live single-worker endpoint; connection A (4 KB receive buffer, not reading) requests 1..6 writes of 2..8 MB so that the server socket really stops accepting data; during 200..1500 ms connection B issues 1..8 requests; '
-        'then A reads everything; in the two-batch variant A asks for a second batch and starts reading while the worker is busy on B, so that A becomes readable and writable in one readiness event. Observed: B\'s answers and worst latency, number of socket write attempts on A while blocked (write hook), bytes finally received on A, A\'s promises. '
+        'then A reads everything; in the two-batch variant A asks for a second batch and starts reading while the worker is busy on B, so that A becomes readable and writable in one readiness event; in the third variant an established connection C asks while the worker is busy, just before A starts to read (C readable and A writable arrive in one epoll batch). Observed: B\'s answers and worst latency, number of socket write attempts on A while blocked (write hook), bytes finally received on A, A\'s promises. '
         'non-trivial = distinct (writes, size, hold, requests, outcome)')
 ASSUME = ['the kernel\'s socket buffers are smaller than the data queued for A (4 KB receive buffer on the client, MBs queued)', 'latency bound 1000 ms and attempt bound 200 are generous: the repaired code makes 0 attempts and answers in about 1 ms',
           'the model works with scaled-down buffer sizes (same number of writes)']
